@@ -48,6 +48,7 @@ def probe_all(world, want_rep, order=0):
 def run(ck):
     warnings.simplefilter("ignore")
     quick = ck.tier == "quick"
+    NG = len(World().c15_good_calls())
     # ---- (A)
     r = tlc.run("mc/MC_Walker", cfg="MC_Walker_oneshot.cfg", timeout=3000)
     ck.add_tlc(r)
@@ -62,9 +63,9 @@ def run(ck):
     ck.add_tlc(sim)
     longs, seen = [], set()
     for h in sim.printed():
-        if isinstance(h, list) and tuple(h) not in seen and any(c > 5 for c in h):
+        if isinstance(h, list) and tuple(h) not in seen and any(c > NG for c in h):
             seen.add(tuple(h))
-            longs.append({"h": h, "twin": [c for c in h if c <= 5]})
+            longs.append({"h": h, "twin": [c for c in h if c <= NG]})
     n = 600 if quick else len(hists)
     len3 = [h for h in hists if len(h["h"]) == 3]
     len2 = [h for h in hists if len(h["h"]) == 2]
@@ -83,13 +84,13 @@ def run(ck):
         run_history(wb, calls_b, hc["twin"])
         pb, _ = probe_all(wb, False, order)
         evs.append({"id": k, "kind": "twin", "h": hc["h"], "twin": hc["twin"], "outcomes": oa, "pa": pa, "pb": pb, "rep": rep,
-                    "isfail": [1 if c > 5 else 0 for c in hc["h"]]})
+                    "isfail": [1 if c > NG else 0 for c in hc["h"]]})
         ck.count()
-        nfailed = sum(1 for c, o in zip(hc["h"], oa) if c > 5 and o == "err")
+        nfailed = sum(1 for c, o in zip(hc["h"], oa) if c > NG and o == "err")
         if nfailed:
             ck.nontrivial(tuple(hc["h"]))
         for c, o in zip(hc["h"], oa):
-            if c > 5 and o != "err":
+            if c > NG and o != "err":
                 ck.note("catalogue call %d expected to fail did not fail" % c)
     verdicts, st = tlc.validate_events("Trace_Pure", evs, constants={"Seed": 0, "Cap": 8})
     ck.add_tlc(st)
